@@ -22,10 +22,7 @@ REVIEWED = {
     ("ppci/graph/relooper.py", "follows_loop", "sequence"): "guarded by len(...) != 1 -> raise: the set has exactly one element",
 }
 # sites where the order can reach an output in principle but no diverging compilation was found
-HAZARD = {
-    ("ppci/codegen/registerallocator.py", "rewrite_program", "loop"): "spilling a coalesced node creates the replacement registers in set order (names only); no diverging object found in the compilations tried (spilling program, 11 targets, repeated runs)",
-    ("ppci/graph/graph.py", "combine", "loop"): "edges of the merged node are re-added in set order; adjacency is an OrderedSet, so later worklist order may depend on it; no diverging compilation found",
-}
+HAZARD = {}
 CONTROL = """
 class G:
     def __init__(self):
